@@ -507,7 +507,7 @@ def _fam_short(family):
 
 def families_for(tier, seed, c06=False):
     rng = random.Random(seed * 65537 + 5)
-    n = (100 if tier == 'quick' else 1200) if not c06 else (40 if tier == 'quick' else 500)
+    n = (100 if tier == 'quick' else 1200) if not c06 else (40 if tier == 'quick' else 300)
     fams = list(CURATED)
     tries = 0
     while len(fams) < len(CURATED) + n and tries < 10000:
@@ -627,7 +627,7 @@ def run(rep, tier, seed, keep=False, c06=False):
             # a layer may also be a MultiContext: the union of its members' overloads. Every overload of a layer lives in a member
             # context of its own; the members are listed in every order (capped): the outcome is the layer's, whatever the order
             nmc = 0
-            cap_f = 30 if tier == 'quick' else 200
+            cap_f = 30 if tier == 'quick' else 100
             def _prio(fi_):
                 fam_ = fams[fi_ - 1]
                 return (0 if any(l['excl'] and len(l['ovs']) >= 2 for l in fam_[:-1]) else 1, fi_)
@@ -641,7 +641,7 @@ def run(rep, tier, seed, keep=False, c06=False):
                 cases_f = by_fam[fi]
                 if len(cases_f) > (40 if tier == 'quick' else 150):
                     cases_f = rng_m.sample(cases_f, 40 if tier == 'quick' else 150)
-                for combo in combos[:(6 if tier == 'quick' else 24)]:
+                for combo in combos[:(6 if tier == 'quick' else 12)]:
                     ran = []
                     ctx = build_multi_chain(family, ran, combo, runner.root)
                     for call, want in cases_f:
